@@ -29,8 +29,10 @@ class Path:
 CONTROL = ("If", "Match", "Block", "Loop", "While", "For", "Closure", "Ret", "Try", "Break", "Continue", "LetStmt", "ExprStmt")
 
 
-def enumerate_paths(body_node, interesting, limit=512):
-    """all paths through body_node.  interesting(node) -> bool selects the event nodes."""
+def enumerate_paths(body_node, interesting, limit=512, loop_barrier=False):
+    """all paths through body_node.  interesting(node) -> bool selects the event nodes.
+    loop_barrier: a loop that contains events ends the path there (end = "loop") instead of making the whole
+    enumeration unsupported — for questions about the exits that lie before the first such loop."""
     def has_interesting(n):
         return any(interesting(x) for x, _ in H.walk(n))
 
@@ -116,6 +118,11 @@ def enumerate_paths(body_node, interesting, limit=512):
             return out
         if k in ("Loop", "While", "For"):
             if has_interesting(n):
+                if loop_barrier:
+                    q = p.fork()
+                    q.end = "loop"
+                    q.value = n
+                    return [q]
                 raise Unsupported("a loop contains accounting events (line %s)" % (n.get("sp") or [0, 0, 0])[2])
             return [p]
         if k == "Closure":
